@@ -169,9 +169,13 @@ fn judge_image(
     };
     let hi = inflight.map(|j| j + 1).unwrap_or(acked);
     let probe = rec.models[hi].next_iid;
-    let d = {
+    let (d, idx_acked, idx_hi) = {
         let snap = engine.snapshot();
-        dump_snapshot(&snap, probe)
+        let d = dump_snapshot(&snap, probe);
+        // index soundness against both admissible states (an entry is fine if either explains it)
+        let a = crate::dump::index_soundness(&snap, &rec.models[acked]);
+        let b = crate::dump::index_soundness(&snap, &rec.models[hi]);
+        (d, a, b)
     };
     let engine_next_iid = engine.scan_i2e_records().len() as u32;
     drop(engine);
@@ -187,6 +191,11 @@ fn judge_image(
     // prefer the later state: with equal content and slot count its bookkeeping (edge keys whose
     // re-creation the generator must avoid) is a superset of the earlier one's
     if let Some(c) = matching.iter().rev().copied().find(|c| rec.models[*c].next_iid == engine_next_iid) {
+        let idx = if c == acked { &idx_acked } else { &idx_hi };
+        if let Some((cls, det)) = idx.first() {
+            out.viols.push(("C02".into(), format!("index:{cls}"), format!("recovered content equals the state after {c} ops, but {det}")));
+            stats.inc("probe:index_unsound_after_recovery");
+        }
         out.matched = Some(c);
         return (out, Some((sb, rec.models[c].clone())));
     }
@@ -508,6 +517,9 @@ impl CrashCheck {
 fn shape(k: &mut Knobs, rng: &mut Rng, tier: &str) {
     // txn, abandon, compact, create_index, close_reopen, drop_reopen, vacuum
     k.w_top = [40, 3, *rng.pick(&[0, 6, 12]), 2, *rng.pick(&[0, 5]), *rng.pick(&[0, 4]), 0];
+    if k.avoids("index_with_crash") {
+        k.w_top[3] = 0;
+    }
     k.n_ops = if tier == "thorough" { rng.range(2, 14) } else { rng.range(2, 7) } as usize;
     k.max_txn_ops = rng.range(1, 6) as usize;
     k.big_values = rng.chance(0.1);
